@@ -107,6 +107,18 @@ Theorem C02_future_heads_have_bridge_rules : forall (A : Type) (leA : A -> A -> 
   forall (P : list (frule A)) (o : output A), transform_program A leA P = Some o ->
   forall r a n, In r P -> fh A r = FNorm A a n -> 0 < n -> has A leA (o_bridge A o) (a, n).
 Proof. intros A leA R P o E r a n. exact (future_heads_have_bridges A leA R P o E r a n). Qed.
+(* where the auxiliary atoms occur - the instance of the cleanliness hypotheses of C02_future_aux_elim_* for the rewritten program: the bodies of
+   accepted rules mention ordinary atoms and the two markers only, a normal rule head with n > 0 primes becomes `__future_p(n, __t+n)` and
+   contributes the future predicate (p, n), every other head is unchanged *)
+Theorem C02_future_atoms_only_in_heads_of_normal_rules : forall (A : Type) (r : frule A) (t : tres A), transform_rule A r = Some t ->
+  forallb (fun y => plain_atom A (snd y)) (qb A (t_rule A t)) = true /\
+  match fh A r with
+  | FNorm _ a n => qh A (t_rule A t) = QHAtom A (if 0 <? n then QFut A a n (QRel (Z.of_nat n)) else QU A a (QRel 0%Z)) /\ t_fut A t = (if 0 <? n then [(a, n)] else [])
+  | FDisj _ l => qh A (t_rule A t) = QHDisj A l /\ t_fut A t = []
+  | FChoice _ l => qh A (t_rule A t) = QHChoice A l /\ t_fut A t = []
+  | FCons _ => qh A (t_rule A t) = QHCons A /\ t_fut A t = []
+  end.
+Proof. exact accepted_rule_shape. Qed.
 Print Assumptions C02_window_exact.
 Print Assumptions C02_temporary_copy_live.
 Print Assumptions C02_no_stale_instance.
@@ -120,3 +132,4 @@ Print Assumptions C02_core_and_lookahead_exact.
 Print Assumptions C02_transformer_emits_the_window_copies.
 Print Assumptions C02_transformer_lists_the_window_parts.
 Print Assumptions C02_future_heads_have_bridge_rules.
+Print Assumptions C02_future_atoms_only_in_heads_of_normal_rules.
